@@ -36,6 +36,10 @@ def cases():
     C.append(('channel-manual-error-c0', dict(kind='channel', down=1, up=2, pub='manual', cancel_after=0, credit='max', ending='error')))
     C.append(('channel-manual-error-c1', dict(kind='channel', down=2, up=2, pub='manual', cancel_after=1, credit='one', ending='error')))
     C.append(('stream-manual-error-c1', dict(kind='stream', down=2, pub='manual', cancel_after=1, credit='one', ending='error')))
+    # a producer that emits synchronously from inside request(n)
+    C.append(('stream-sync-c1', dict(kind='stream', down=3, pub='sync', cancel_after=1, credit='one', ending='flag')))
+    C.append(('channel-sync-c1', dict(kind='channel', down=3, up=2, pub='sync', cancel_after=1, credit='one', ending='flag')))
+    C.append(('stream-sync-c0', dict(kind='stream', down=3, pub='sync', cancel_after=0, credit='one', ending='flag')))
     # the handler coroutine is still suspended inside the peer's receiver when the CANCEL arrives
     C.append(('rr-slow-handler', dict(kind='rr', rr_mode='slow', cancel_after=0)))
     C.append(('stream-slow-handler-c0', dict(kind='stream', down=3, pub='manual', cancel_after=0, credit='max', ending='complete', rr_mode='slow')))
